@@ -23,8 +23,8 @@ RULE = ("case = (A) in-memory scenario: 1-3 concurrent calls x arrival order of 
         "schedule. Distinct = distinct scenario; non-trivial = all callers were accounted for (returned own answer / raised) or a hang was decided.")
 ASSUMPTIONS = ["a caller is hung when the listener task has exited (nothing can complete its future any more) and the caller is still blocked after a generous grace period",
                "which exception a failed call raises is not prescribed"]
-MIN_COUNTS = {"quick": {"nontrivial": 350, "calls_accounted": 800, "scenarios_with_2plus_pending_at_cut": 100, "late_calls": 100},
-              "thorough": {"nontrivial": 2000, "calls_accounted": 5000, "scenarios_with_2plus_pending_at_cut": 450, "late_calls": 1400}}
+MIN_COUNTS = {"quick": {"nontrivial": 350, "calls_accounted": 800, "scenarios_with_2plus_pending_at_cut": 100, "late_calls": 100, "paused_calls_stopped_at_a_line": 6},
+              "thorough": {"nontrivial": 2000, "calls_accounted": 5000, "scenarios_with_2plus_pending_at_cut": 450, "late_calls": 1400, "paused_calls_stopped_at_a_line": 50}}
 CASE_TIMEOUT = 300
 MIN_SHARD = 8
 
@@ -55,6 +55,10 @@ def cases(tier, seed):
             for order in (list(range(n)), list(reversed(range(n)))):
                 for pat in (["whole", "bytes", "split-len"] if tier == "quick" else PATTERNS):
                     out.append({"t": "mem", "n": n, "order": order, "cut": "close-ack", "after": after, "frag": pat, "merge": False, "when": "after-send", "late": True})
+    # one call stopped at each of its source lines (caller's thread) while the connection is lost and the listener exits
+    for line in range(0, 9):
+        for rep in range(2 if tier == "quick" else 12):
+            out.append({"t": "paused-call", "line": line, "rep": rep, "loss": ["eof", "eof", "close-ack"][rep % 3] if line < 8 else "eof"})
     # real TCP races under yield injection
     nt = 48 if tier == "quick" else 1200
     kinds = ["server-eval-fails", "clic-while-pending", "call-after-clic", "srv0-while-pending"]
@@ -243,6 +247,78 @@ def _run_mem(ctx, case, res):
     res["show"] = dict(case, results={str(a): b for a, b in results.items()})
 
 
+def _run_paused_call(ctx, case, res):
+    """A caller is held at its k-th source line inside NetworkClient.call (in its own thread) until the connection has been
+    lost and the listener has finished its clean-up; then it continues.  It must come back (answer or error), never wait forever."""
+    import asyncio
+    import sys
+    from klongpy.sys_fn_ipc import NetworkClient, ReaderWriterConnectionProvider
+    from vf.mon.memstream import MemWriter
+    io, klp, k = ctx["io"], ctx["kl"], ctx["k"]
+    cnt = res["counters"]
+    reader = io.call(asyncio.StreamReader)
+    writer = MemWriter(io.loop)
+    nc = NetworkClient(io.loop, klp.loop, k, ReaderWriterConnectionProvider(reader, writer, "mem", 0))
+    t0 = threading.Thread(target=nc.run_client, daemon=True)
+    t0.start()
+    t0.join(10)
+    if t0.is_alive():
+        res["harness_error"] = "run_client did not return"
+        return
+    st = {"count": 0, "paused": threading.Event(), "resume": threading.Event(), "tid": None, "line": None}
+    results = {}
+    mon = sys.monitoring
+    TOOL = mon.PROFILER_ID
+
+    def on_line(code, line):
+        if threading.get_ident() != st["tid"]:
+            return
+        i = st["count"]
+        st["count"] += 1
+        if i == case["line"]:
+            st["line"] = line
+            st["paused"].set()
+            st["resume"].wait(20)
+
+    def caller():
+        st["tid"] = threading.get_ident()
+        try:
+            results["c"] = ("ret", nc.call("req-paused"))
+        except BaseException as e:
+            results["c"] = ("raise", type(e).__name__)
+    code = NetworkClient.call.__code__
+    mon.use_tool_id(TOOL, "vf-pause")
+    try:
+        mon.register_callback(TOOL, mon.events.LINE, on_line)
+        mon.set_local_events(TOOL, code, mon.events.LINE)
+        th = threading.Thread(target=caller, daemon=True)
+        th.start()
+        reached = st["paused"].wait(5)
+        io.loop.call_soon_threadsafe(reader.feed_eof)
+        io.call(lambda: None)
+        for _ in range(300):
+            if nc._run_exit_event.is_set():
+                break
+            time.sleep(0.01)
+        st["resume"].set()
+        th.join(15)
+    finally:
+        mon.set_local_events(TOOL, code, 0)
+        mon.register_callback(TOOL, mon.events.LINE, None)
+        mon.free_tool_id(TOOL)
+    cnt["paused_calls"] = 1
+    if reached:
+        cnt["paused_calls_stopped_at_a_line"] = 1
+    res["nontrivial"] = True
+    res["show"] = dict(case, stopped_at_source_line=st["line"], result=results.get("c"), listener_exited=nc._run_exit_event.is_set())
+    if th.is_alive():
+        res["violations"].append({"sig": "hang|paused-call|%s" % ("line:%d" % case["line"] if reached else "not-stopped"),
+                                  "what": "a call held at source line %s of NetworkClient.call while the connection was lost is still blocked 15 s after it was released (listener gone: %s)" % (st["line"], _listener_gone(io, nc)),
+                                  "detail": res["show"]})
+    elif results.get("c", ("",))[0] == "ret":
+        res["violations"].append({"sig": "returned-without-response|paused-call", "what": "the call returned %r although no response was ever delivered" % (results["c"][1],), "detail": res["show"]})
+
+
 # ------------------------------------------------------------------------------- real TCP
 
 def _run_tcp(ctx, case, res):
@@ -276,6 +352,8 @@ def run_case(ctx, case):
     res = {"nontrivial": False, "counters": {}, "violations": [], "key": repr(case)}
     if case["t"] == "mem":
         _run_mem(ctx, case, res)
+    elif case["t"] == "paused-call":
+        _run_paused_call(ctx, case, res)
     else:
         _run_tcp(ctx, case, res)
     return res
